@@ -752,9 +752,9 @@ Proof. intros Hnd Hne. exact (proj1 (proj2 (parse_fields_char fs Hnd Hne))). Qed
 (* ------------------------------------------------------------------------- *)
 (* E. parse back.  The encoder writes the object syntax by hand; that its output is read back by
    the JSON layer as the intended members is a statement about the JSON parser on printed texts.
-   It is isolated here as explicit hypotheses (JSON-level round-trip specifications, each exercised
-   by the differential harness and by the vm_compute instances below); the wire-level argument on
-   top of them is proved. *)
+   These JSON-level round-trip specifications are stated here as Definitions [spec_...] and used as
+   section hypotheses by the wire-level argument; every one of them is PROVED in WireSpecs.v
+   (from json/JsonPrint.v), where the unconditional theorems are derived. *)
 
 Definition fld (kv : bytes * bytes) : bytes := 34 :: fst kv ++ 34 :: 58 :: snd kv.
 Definition obj_open (kvs : list (bytes * bytes)) : bytes := 123 :: join_with [44] (map fld kvs).
